@@ -254,14 +254,7 @@ func genHostile(rt *rapid.T) (string, []string) {
 
 func TestFixPreservesTokens(t *testing.T) {
 	hx.Rule("fix_preserves_tokens", "G-SQL statements laid out with hostile separators (double spaces, tabs, mixed indentation, trailing blanks, blank-line runs, CRLF), multi-line string literals containing keywords/double spaces/blank lines/trailing blanks, keyword-spelled quoted identifiers and comments containing quotes and keywords; each auto-fixable rule's Fix alone and all fixes in the CLI's order: token sequence and comment texts preserved (unquoted words compared case-insensitively), fixed point, no remaining violation of an applied rule, every violation location inside the text; non-trivial = text has a multi-line literal, a comment with quote/keyword or a keyword-spelled quoted identifier; distinct = rule + class set + size")
-	ids := []string{"all", "all", "L001", "L002", "L003", "L007", "L010"}
-	fixCheck.Rapid(t, hx.N(25000, 300000), func(rt *rapid.T) FixCase {
-		text, cl := genHostile(rt)
-		rule := rapid.SampledFrom(ids).Draw(rt, "rule")
-		hx.Case("fix_preserves_tokens", len(cl) > 0, rule+"|"+strings.Join(cl, ",")+fmt.Sprint(len(text)/16), append(cl, "rule_"+rule)...)
-		hx.Sample("fix_preserves_tokens", text)
-		return FixCase{Text: text, Rule: rule}
-	})
+	fixCheck.Rapid(t, hx.N(25000, 300000), genFixPreservesTokens)
 }
 
 var _ = lexgen.KString
@@ -442,12 +435,7 @@ var exactCheck = hx.NewCheck("layout_rules_exact", oracleExact)
 
 func TestLayoutRulesExact(t *testing.T) {
 	hx.Rule("layout_rules_exact", "same hostile texts; reference predicates written from docs/LINTING_RULES.md and evaluated with the reference lexer's knowledge of where literals and comments are: L001 trailing blanks (minus one CR), L003 runs of > 1 blank line, L005 length > 100 (only where bytes and runes agree), L010 >= 2 spaces in code after the indentation, L007 documented keyword not upper-case; the reported (line, column) sets must equal the reference sets; non-trivial/distinct as fix_preserves_tokens")
-	exactCheck.Rapid(t, hx.N(20000, 200000), func(rt *rapid.T) ExactCase {
-		text, cl := genHostile(rt)
-		hx.Case("layout_rules_exact", len(cl) > 0, strings.Join(cl, ",")+fmt.Sprint(len(text)/16), cl...)
-		hx.Sample("layout_rules_exact", text)
-		return ExactCase{Text: text}
-	})
+	exactCheck.Rapid(t, hx.N(20000, 200000), genFixExact)
 }
 
 // ---------------------------------------------------------------- the language server's format action
@@ -557,3 +545,27 @@ func TestLSPFormatPreservesTokens(t *testing.T) {
 		return c
 	})
 }
+
+// genFixPreservesTokens is the case generator of fixCheck (shared by the rapid run and the native fuzz target).
+func genFixPreservesTokens(rt *rapid.T) FixCase {
+	text, cl := genHostile(rt)
+	ids := []string{"all", "all", "L001", "L002", "L003", "L007", "L010"}
+	rule := rapid.SampledFrom(ids).Draw(rt, "rule")
+	hx.Case("fix_preserves_tokens", len(cl) > 0, rule+"|"+strings.Join(cl, ",")+fmt.Sprint(len(text)/16), append(cl, "rule_"+rule)...)
+	hx.Sample("fix_preserves_tokens", text)
+	return FixCase{Text: text, Rule: rule}
+}
+
+// FuzzFixPreservesTokens: coverage-guided search over the same generator (thorough tier).
+func FuzzFixPreservesTokens(f *testing.F) { fixCheck.Fuzz(f, genFixPreservesTokens) }
+
+// genFixExact is the case generator of exactCheck (shared by the rapid run and the native fuzz target).
+func genFixExact(rt *rapid.T) ExactCase {
+	text, cl := genHostile(rt)
+	hx.Case("layout_rules_exact", len(cl) > 0, strings.Join(cl, ",")+fmt.Sprint(len(text)/16), cl...)
+	hx.Sample("layout_rules_exact", text)
+	return ExactCase{Text: text}
+}
+
+// FuzzFixExact: coverage-guided search over the same generator (thorough tier).
+func FuzzFixExact(f *testing.F) { exactCheck.Fuzz(f, genFixExact) }
